@@ -342,7 +342,7 @@ def t_collisions(rec, seed, tier):
 
 
 def t_machine(rec, seed, tier, shard):
-    n, steps = {"quick": (60, 25), "thorough": (400, 50)}[tier]
+    n, steps = {"quick": (120, 25), "thorough": (400, 50)}[tier]
     hyp_machine(rec, make_machine(rec, seed), n, steps, seed + shard, shrink_budget=20)
 
 
